@@ -261,7 +261,7 @@ func runC07(a *args) error {
 	}
 	if a.replay == "" {
 		// recall floor: measured (statistical clause of the property; reported, not proved)
-		sizes := [][2]int{{1500, 8}, {1500, 32}}
+		sizes := [][2]int{{1500, 8}, {1500, 32}, {2000, 64}}
 		if a.tier == "thorough" {
 			sizes = [][2]int{{3000, 8}, {3000, 32}, {5000, 64}, {2000, 16}}
 		}
@@ -271,7 +271,7 @@ func runC07(a *args) error {
 			recalls = append(recalls, rc)
 			if rc < 0.8 {
 				st.ImplFailures = append(st.ImplFailures, implFailure{Case: -1, What: fmt.Sprintf("mean recall@10 = %.3f < 0.8 on %d random %d-dimensional vectors (default parameters)", rc, s[0], s[1]),
-					Key: "recall-below-floor", Input: map[string]interface{}{"n": s[0], "dim": s[1], "seed": a.seed}})
+					Key: fmt.Sprintf("recall-below-floor:dim%d", s[1]), Input: map[string]interface{}{"n": s[0], "dim": s[1], "seed": a.seed}})
 			}
 		}
 		st.Extra["recall_at_10_measured"] = recalls
